@@ -291,8 +291,11 @@ impl MpsModel {
             if lay.numbers == 0 || !v.is_finite() {
                 return format!("{}", v);
             }
-            let s = match rng.below(7) {
+            let s = match rng.below(9) {
                 0 => format!("{}", v),
+                // forms real files use: no digit before or after the point
+                7 if v != 0.0 && v.abs() < 1.0 => format!("{}", v).replacen("0.", ".", 1),
+                8 if v == v.trunc() && v.abs() < 1e15 => format!("{}.", v),
                 // zero written with a minus sign denotes the same number
                 6 if v == 0.0 => (*rng.pick(&["-0", "-0.0", "-0e0", "-.0"])).to_string(),
                 1 if v == v.trunc() && v.abs() < 1e15 => format!("{:.1}", v),
@@ -572,18 +575,40 @@ const COL_NAMES: [&str; 21] = ["x", "x1", "y.2", "COL.A", "7", "42", "OMMX_VAR_3
 const ROW_NAMES: [&str; 17] = ["c1", "LIM.1", "17", "R2", "OMMX_CONSTR_5", "cap(3)", "r", "MYEQN", "row-3", "0", "OMMX_CONSTR_a", "lim2", "制約", "é1", "*r", "ENDATA", "ROWS"];
 
 pub fn gen_model(rng: &mut Rng) -> MpsModel {
-    let nrows = *rng.pick(&[0usize, 1, 1, 2, 2, 3, 4, 5]);
-    let ncols = *rng.pick(&[0usize, 1, 2, 2, 3, 3, 4, 5, 6]);
+    // mostly small (the statement's <= 6 columns, <= 5 rows); now and then the size of a small real model, with
+    // names as benchmark files have them (long, with digits first, brackets, '#', '$')
+    let big = rng.chance(1, 25);
+    let nrows = if big { 6 + rng.usize(25) } else { *rng.pick(&[0usize, 1, 1, 2, 2, 3, 4, 5]) };
+    let ncols = if big { 7 + rng.usize(34) } else { *rng.pick(&[0usize, 1, 2, 2, 3, 3, 4, 5, 6]) };
+    let synth = |rng: &mut Rng, i: usize, row: bool| -> String {
+        match rng.below(7) {
+            0 => format!("{}{:04}", if row { "R" } else { "C" }, i),
+            1 => format!("{}#{}#{}", if row { "c" } else { "x" }, i / 7, i % 7),
+            2 => format!("{}_{}_{}", if row { "cons" } else { "flow" }, i, i * 31 % 17),
+            3 => format!("{}[{},{}]", if row { "cap" } else { "y" }, i, i + 1),
+            4 => format!("{}{}", i, if row { "row$" } else { "col$" }),
+            5 => format!("{}{}", if row { "a_rather_long_row_name_beyond_the_eight_characters_of_fixed_format_" } else { "a_rather_long_column_name_beyond_the_eight_characters_of_fixed_format_" }, i),
+            _ => format!("{}{}", "n".repeat(260), i),
+        }
+    };
     let mut rn: Vec<&str> = ROW_NAMES.to_vec();
     rng.shuffle(&mut rn);
     let mut cn: Vec<&str> = COL_NAMES.to_vec();
     rng.shuffle(&mut cn);
     // never *all* columns / rows in the OMMX_VAR_<n> / OMMX_CONSTR_<n> scheme (that is the ID-recovery mode of C18)
     let mut cnames: Vec<String> = cn.iter().take(ncols).map(|s| s.to_string()).collect();
+    while cnames.len() < ncols {
+        let n = synth(rng, cnames.len(), false);
+        cnames.push(n);
+    }
     if !cnames.is_empty() && cnames.iter().all(|n| n.starts_with("OMMX_VAR_")) {
         cnames[0] = "plain".into();
     }
     let mut rnames: Vec<String> = rn.iter().take(nrows).map(|s| s.to_string()).collect();
+    while rnames.len() < nrows {
+        let n = synth(rng, rnames.len(), true);
+        rnames.push(n);
+    }
     // rows named like the name a reader may derive for the second constraint of a ranged row
     if rnames.len() >= 2 && rng.chance(1, 6) {
         rnames[1] = format!("{}_", rnames[0]);
